@@ -6,6 +6,9 @@ import os
 import re
 import subprocess
 import time
+import sys
+
+ROOT = os.path.dirname(os.path.dirname(os.path.abspath(__file__)))
 
 # which acceptor rejection kinds (kind of the event at which the model could no longer follow
 # the observation; see ev_kind in Check/RunCheck.v) count against which property
@@ -309,12 +312,113 @@ spec_stream = generic_stream(
     lambda o, kv: o.get("mode") in (0, 1),
     _spec_dist)
 
+def build_cambrian_binary(ctx):
+    tgt = os.path.join(ROOT, "harness", "target", "repo")
+    p = subprocess.run(["cargo", "build", "--offline", "--bin", "cambrian", "--manifest-path", "/repo/Cargo.toml", "--target-dir", tgt],
+                       stdout=subprocess.PIPE, stderr=subprocess.STDOUT, text=True, timeout=1800,
+                       env=dict(os.environ, CARGO_NET_OFFLINE="true"))
+    return p.returncode == 0, os.path.join(tgt, "debug", "cambrian"), p.stdout[-1500:]
+
+
+def cli_stream(ctx, spec, st, replay, scale, hbin, coqc_shards):
+    pid = ctx.pid
+    out = os.path.join(ctx.work, "cli_" + st["name"])
+    os.makedirs(out, exist_ok=True)
+    ok, binary, blog = build_cambrian_binary(ctx)
+    if not ok:
+        payload = {"stream": "cli", "kind": "binary-build-failed", "output": blog, "property": pid}
+        return {"stats": {"observations": 0}, "rejections": [payload], "monitor_failures": [], "samples": []}
+    master = ctx.seed * 1000 + st.get("salt", 0)
+    frm, count, profile = 0, st["count"][ctx.tier] * scale, st.get("profile", "mixed")
+    nsh = 8
+    if replay:
+        rp = json.load(open(replay))
+        if rp.get("stream") != "cli":
+            return {"stats": {}, "rejections": [], "monitor_failures": [], "samples": []}
+        master, frm, count, profile, nsh = rp["master"], rp["idx"], 1, rp["profile"], 1
+    t0 = time.time()
+    procs = []
+    per = (count + nsh - 1) // nsh
+    for sh in range(nsh):
+        lo = frm + sh * per
+        n = min(per, frm + count - lo)
+        if n <= 0:
+            continue
+        d = os.path.join(out, "s%d" % sh)
+        procs.append((d, subprocess.Popen([sys.executable, os.path.join(ROOT, "tools", "clistream.py"), "--binary", binary,
+                                           "--master", str(master), "--from", str(lo), "--count", str(n), "--profile", profile,
+                                           "--out-dir", d, "--work", os.path.join(ctx.work, "cliw_%s_%d" % (st["name"], sh))],
+                                          stdout=subprocess.PIPE, stderr=subprocess.STDOUT, text=True)))
+    crashed = []
+    for d, pr in procs:
+        o, _ = pr.communicate(timeout=3000)
+        if pr.returncode != 0:
+            crashed.append(o[-1500:])
+    t_h = time.time() - t0
+    if crashed:
+        payload = {"stream": "cli", "master": master, "profile": profile, "kind": "driver-crash", "output": crashed[0], "property": pid}
+        return {"stats": {"observations": 0}, "rejections": [payload], "monitor_failures": [], "samples": []}
+    t1 = time.time()
+    outs = coqc_shards(ctx, [os.path.join(d, "cli_0.v") for d, _ in procs])
+    t_c = time.time() - t1
+    obs = {}
+    for d, _ in procs:
+        for o in json.load(open(os.path.join(d, "cli_0.json"))):
+            obs[o["idx"]] = o
+    lines, coq_errors = [], []
+    for vf, (rc, text) in outs.items():
+        if rc != 0 or "Error" in text:
+            coq_errors.append((vf, text[-1500:]))
+        for m in re.finditer(r'"CLI ([^"]*) END"', text):
+            lines.append(m.group(1))
+    rejections, mfails, samples = [], [], []
+    dist = collections.Counter()
+    sigs = set()
+    nontriv = 0
+    for ln in lines:
+        kv = dict(x.split("=", 1) for x in ln.split())
+        idx = int(kv["idx"])
+        o = obs.get(idx, {})
+        small = {k: o.get(k) for k in ("case", "args", "code", "stdout", "stderr", "survivors", "n_children", "files", "quiet_twin")}
+        base = {"stream": "cli", "master": master, "idx": idx, "profile": profile, "property": pid, "verdict": ln, "observation": small}
+        if kv["acc"] != "ok" and pid in ("C16", "C15"):
+            rejections.append(dict(base, kind="acceptor-rejection", how=kv["acc"]))
+        if kv.get(pid) == "0":
+            mfails.append(dict(base, kind="monitor-false", monitor="mon_" + pid))
+        c = o.get("case", {})
+        sig = hashlib.sha1(json.dumps([c, o.get("code"), o.get("n_children")], sort_keys=True, default=str).encode()).hexdigest()
+        if sig not in sigs:
+            sigs.add(sig)
+            if o.get("n_children", 0) >= 1:
+                nontriv += 1
+        dist["kind_" + str(c.get("kind"))] += 1
+        if c.get("cause"):
+            dist["cause_" + c["cause"]] += 1
+        if c.get("invalid"):
+            dist["invalid_" + c["invalid"]] += 1
+        dist["exit_" + ("0" if o.get("code") == 0 else "nonzero")] += 1
+        dist["children_started_total"] += o.get("n_children", 0)
+        for r_, fl in c.get("behaviours", []):
+            for ch in fl:
+                if ch in "GDKTEX Z".replace(" ", ""):
+                    dist["child_flag_" + ch] += 1
+        if len(samples) < 1 and o.get("n_children", 0) >= 1:
+            samples.append(dict(small, idx=idx, verdict=ln))
+    if coq_errors or len(lines) != count:
+        rejections.append({"stream": "cli", "master": master, "profile": profile, "property": pid, "kind": "checker-error",
+                           "expected": count, "judged": len(lines), "errors": coq_errors[:2]})
+    stats = {"observations": len(lines), "distinct": len(sigs), "distinct_nontrivial": nontriv,
+             "rule": "real binary runs (master=%d, profile=%s): options x spec x scripted children; non-trivial = at least one child was started" % (master, profile),
+             "harness_s": round(t_h, 1), "coqc_s": round(t_c, 1), "distribution": dict(dist)}
+    return {"stats": stats, "rejections": rejections, "monitor_failures": mfails, "samples": samples}
+
+
 def glob_(d, pat):
     import glob
     return glob.glob(os.path.join(d, pat))
 
 
-STREAMS = {"run": run_stream, "ops": ops_stream, "spec": spec_stream, "guess": guess_stream}
+STREAMS = {"run": run_stream, "ops": ops_stream, "spec": spec_stream, "guess": guess_stream, "cli": cli_stream}
 
 CTL_FILES = ["theories/Ctl.vo", "theories/CtlProofs.vo"]
 
@@ -396,5 +500,27 @@ PROPS = {
             "round trip value -> JSON -> value -> same JSON: checked by the monitor on every conforming case (also through JSON text), general theorem not yet proved",
             "'the spec's own initial value as guess gives the same run': not yet covered by a stream",
         ],
+    },
+    "C07": {
+        "propfile": "theories/Properties/C07.v",
+        "coq_targets": ["theories/Properties/C07.vo"],
+        "checkers": ["CliCheck"],
+        "streams": [{"kind": "cli", "name": "proc", "profile": "proc", "count": {"quick": 64, "thorough": 600}, "salt": 7}],
+        "assumptions": [
+            "partial: the theorem is about the process-group life cycle model (Cli.pstep); kernel behaviour of killpg/waitpid, PID reuse, zombie reaping are outside it",
+            "every evaluation future of a run has completed or been dropped when the run returns (Rust drop semantics)",
+            "a process that leaves the process group (setsid) is outside the property",
+        ],
+        "tested_not_proved": ["no survivor after the run: /proc scan for the case marker after every real run (5 termination causes x concurrency 1..4 x children that fork attached/detached grandchildren, ignore SIGTERM, fail)"],
+    },
+    "C16": {
+        "propfile": "theories/Properties/C16.v",
+        "coq_targets": ["theories/Properties/C16.vo"],
+        "checkers": ["CliCheck"],
+        "streams": [{"kind": "cli", "name": "mixed", "profile": "mixed", "count": {"quick": 96, "thorough": 900}, "salt": 16}],
+        "assumptions": [
+            "partial: decision tables (child result classes, order of checks in main, argv shape) are proved; clap, serde_json's text layer, execve quoting and the file system are trusted and tested",
+        ],
+        "tested_not_proved": ["real binary: argv seen by the child (hostile strings in keys/values/user arguments), result encodings, option combinations, output directory handling, files written"],
     },
 }
